@@ -63,7 +63,9 @@ def main():
     eng.isinstance_hooks["Val:Path"] = lambda it, v: epy.VBool(it.ctx.fresh("Bool", "is_path"))
     eng.eq_hooks["Val==Const"] = lambda it, a, b: epy.VBool(it.ctx.fresh("Bool", "enum_eq"))
     contracts = [K.ASSIGN, K.DEEP, K.UPDATE_SECTION, K.GET_RAW, K.WRAPPER, K.UPDATE, K.SET_OVERRIDE, K.CPP_VALIDATE, K.B_SET_EXT, K.CLI_CONTEXT]
-    witness = {"deep_update": N.deep_update_witness, "DefaultValue.assign_to_if_not_default": N.assign_witness}
+    witness = {"deep_update": N.deep_update_witness, "DefaultValue.assign_to_if_not_default": N.assign_witness,
+               "LanguageConfig.update_section": N.update_section_witness, "LanguageConfig.update": N.update_section_witness,
+               "Language._validate_language_options": N.cpp_validate_witness}
     driver.verify_contracts(run, eng, contracts, witness=witness)
     if args.tier == "thorough":
         # CPython cross-check of the contracts on the real functions (bounded; never counted as proved)
